@@ -47,6 +47,25 @@ class FaultyRecorder(io.BytesIO):
         return super().write(data)
 
 
+class FaultyFile(io.FileIO):
+    """the same fault on a real file (truncate, seek past the end etc. behave as the operating system's)"""
+
+    def __init__(self, path, initial, fail_at, frac):
+        with open(path, "wb") as f:
+            f.write(initial)
+        super().__init__(path, "r+b")
+        self.fail_at, self.frac, self.calls = fail_at, frac, 0
+
+    def write(self, data):
+        data = bytes(data)
+        k = self.calls
+        self.calls += 1
+        if k == self.fail_at:
+            super().write(data[:int(len(data) * self.frac)])
+            raise OSError(28, "No space left on device (injected)")
+        return super().write(data)
+
+
 def apply_prefix(initial, log, k):
     """destination content after the first k bytes of the write stream"""
     buf = bytearray(initial)
@@ -201,7 +220,9 @@ def explore(ck, q, n_sessions, lines, meta):
         rec = Recorder()
         session = None
         if kind == "oneshot":
-            las.write(rec)
+            def session(dest, las=las):
+                las.write(dest)
+            session(rec)
         elif kind == "chunked":
             # every other chunked session is a filtered copy: the header handed to the writer advertises more points
             # (the source's count) than the session writes
@@ -286,9 +307,18 @@ def explore(ck, q, n_sessions, lines, meta):
         # a write that fails (storing none, some or nearly all of its bytes) and raises, after which the caller's clean-up runs
         # (the with-block closes the session): what is left must still read as a prefix of the points being stored, or fail
         if session is not None and rec.log:
-            for fail_at in sorted({0, len(rec.log) - 1, ck.rng.randrange(len(rec.log)), ck.rng.randrange(len(rec.log))}):
-                frac = ck.rng.choice([0.0, 0.4, 0.99])
-                dest = FaultyRecorder(initial, fail_at, frac)
+            biggest = max(range(len(rec.log)), key=lambda i_: len(rec.log[i_][1]))      # the (largest) write of point records
+            plan = [(fa, ck.rng.choice([0.0, 0.4, 0.99]), ck.rng.random() < 0.5)
+                    for fa in sorted({0, len(rec.log) - 1, ck.rng.randrange(len(rec.log)), ck.rng.randrange(len(rec.log))})]
+            plan += [(biggest, 0.4, True), (biggest, 0.99, False)]
+            for fail_at, frac, on_disk in plan:
+                if on_disk:
+                    import os
+                    import tempfile
+                    tdir = tempfile.mkdtemp(prefix="verif_c19_")
+                    dest = FaultyFile(os.path.join(tdir, "f.las"), initial, fail_at, frac)
+                else:
+                    dest = FaultyRecorder(initial, fail_at, frac)
                 dest.seek(0)
                 try:
                     session(dest)
@@ -297,11 +327,40 @@ def explore(ck, q, n_sessions, lines, meta):
                     outcome = "OSError"
                 except Exception as e:
                     outcome = type(e).__name__
-                ck.count("failed_write_then_cleanup:" + outcome)
-                inp = dict(inp0, what="failed-write", failing_write=fail_at, stored_fraction=frac, session_outcome=outcome)
-                ck.case(("fault", si, fail_at, frac), nontrivial=True)
-                check_image(ck, dest.getvalue(), intended, size, inp,
-                            f"{kind} session whose write #{fail_at} stored {int(frac * 100)}% of its bytes and raised OSError, then was closed by its with-block", lines, meta)
+                ck.count("failed_write_then_cleanup:" + outcome + (":file" if on_disk else ":memory"))
+                if on_disk:
+                    try:
+                        dest.close()
+                    except Exception:
+                        pass
+                    with open(os.path.join(tdir, "f.las"), "rb") as f_:
+                        left = f_.read()
+                    import shutil
+                    shutil.rmtree(tdir, ignore_errors=True)
+                else:
+                    left = dest.getvalue()
+                inp = dict(inp0, what="failed-write", failing_write=fail_at, stored_fraction=frac, session_outcome=outcome, destination="file" if on_disk else "memory")
+                ck.case(("fault", si, fail_at, frac, on_disk), nontrivial=True)
+                where = "a real file" if on_disk else "a memory stream"
+                check_image(ck, left, intended, size, inp,
+                            f"{kind} session on {where} whose write #{fail_at} stored {int(frac * 100)}% of its bytes and raised OSError, then was closed by its with-block", lines, meta)
+                # the user tries again: a second, undisturbed append session on what the failed one left
+                r1 = safe_read(left)
+                if r1[0] == "ok" and len(r1[1]) % max(size, 1) == 0 and intended.startswith(r1[1]):
+                    try:
+                        extra2 = fio.raw_records(ck.rng, size, ck.rng.choice([1, 3]))
+                        b2 = io.BytesIO(left)
+                        with laspy.open(b2, mode="a", closefd=False) as ap2:
+                            ap2.append_points(c06.rec_of(las, extra2))
+                        ck.count("append_retried_after_failed_session")
+                        check_image(ck, b2.getvalue(), r1[1] + extra2, size, dict(inp, what="retry-after-failed-write"),
+                                    f"append session on what the failed {kind} session left", lines, meta)
+                        r2 = safe_read(b2.getvalue())
+                        if r2[0] == "ok" and r2[1] != r1[1] + extra2:
+                            ck.fail(f"append session on what the failed {kind} session left: {r2[2]} records read, not the {len(r1[1]) // size} that were "
+                                    f"readable followed by the {len(extra2) // size} appended", dict(inp, what="retry-after-failed-write"))
+                    except Exception as e:
+                        ck.count("retry_raised:" + type(e).__name__)
         if si < 3:
             ck.sample(dict(inp0, crash_points=len(cuts), truncations=len(lens), stream_bytes=sum(len(d) for _, d in rec.log)))
 
